@@ -7,6 +7,7 @@ import (
 	"encoding/base64"
 	"encoding/xml"
 	"fmt"
+	"os"
 	"runtime"
 	"sort"
 	"strconv"
@@ -124,6 +125,9 @@ func genShape(r *gen.Rand) *immShape {
 	}
 	sh.Route = r.PickW(4, 1, 1)
 	sh.SameHost = r.Chance(1, 4)
+	if r.Chance(1, 4) {
+		sh.Len["w2"] = r.Range(150, 400)
+	}
 	if sh.Comma {
 		for _, f := range commaFields {
 			if sh.Len[f] < 3 {
@@ -893,7 +897,7 @@ func immObserver(cfg immCfg, side *immSide) func(c fiber.Ctx, matched bool) erro
 			for _, cp := range cs.caps {
 				if cp.changed() && !cp.flagged {
 					cp.flagged = true
-					side.unstable = append(side.unstable, map[string]any{"accessor": cp.acc, "got": cp.now(), "at_capture": cp.was(), "request": i, "phase": cp.phase})
+					side.unstable = append(side.unstable, map[string]any{"accessor": cp.acc, "got": strings.Clone(cp.now()), "at_capture": cp.was(), "request": i, "phase": cp.phase})
 				}
 			}
 		}
@@ -908,7 +912,17 @@ func immObserver(cfg immCfg, side *immSide) func(c fiber.Ctx, matched bool) erro
 				cp.flagged = true
 			}
 		}
-		responseHelpers(c, dir)
+		// after every single helper, before anything re-reads (and thereby re-parses) the request:
+		// the values handed out so far must still read the same
+		responseHelpers(c, dir, func(step string) {
+			for _, cp := range cs.caps {
+				if cp.changed() && !cp.flagged {
+					cp.flagged = true
+					side.unstable = append(side.unstable, map[string]any{"accessor": cp.acc, "got": strings.Clone(cp.now()), "at_capture": cp.was(),
+						"request": i, "phase": cp.phase, "changed_by": step})
+				}
+			}
+		})
 		c.Response().Reset()
 		cs.phase = "read-after-response-helpers"
 		capture(c, q, cfg, cs, matched, false)
@@ -928,29 +942,52 @@ func immObserver(cfg immCfg, side *immSide) func(c fiber.Ctx, matched bool) erro
 }
 
 // responseHelpers: the response-producing and link-building helpers of the context.
-func responseHelpers(c fiber.Ctx, dir string) {
-	_ = c.String()
-	c.Attachment("monthly report.txt")
-	c.Links("http://api.example.com/files?page=2", "next", "http://api.example.com/files?page=5", "last")
-	_, _ = c.GetRouteURL("named", fiber.Map{"id": "77"})
-	_ = c.Render("tpl", fiber.Map{"k": "v"})
-	_ = c.Format(
-		fiber.ResFmt{MediaType: "text/plain", Handler: func(c fiber.Ctx) error { return c.SendString("plain") }},
-		fiber.ResFmt{MediaType: "application/json", Handler: func(c fiber.Ctx) error { return c.JSON(fiber.Map{"a": 1}) }},
-	)
-	_ = c.Redirect().With("k", "v", 0x41).To("/elsewhere")
-	_ = c.SendFile(dir+"/no-such-file.txt", fiber.SendFile{CacheDuration: -1})
-	_ = c.SendFile(dir+"/a.txt", fiber.SendFile{CacheDuration: -1})
-	c.Response().ResetBody()
-	c.Cookie(&fiber.Cookie{Name: "sid", Value: "abc"})
-	c.Vary("Origin")
-	c.Append("X-Extra", "1", "2")
-	c.Type("json")
-	c.Location("/x")
-	_ = c.JSON(fiber.Map{"a": []int{1, 2}})
-	_ = c.XML(struct{ A string }{"x"})
-	_ = c.SendStatus(204)
-	_ = c.String()
+func responseHelpers(c fiber.Ctx, dir string, after func(step string)) {
+	steps := []struct {
+		name string
+		f    func()
+	}{
+		{"String", func() { _ = c.String() }},
+		{"Attachment", func() { c.Attachment("monthly report.txt") }},
+		{"Links", func() {
+			c.Links("http://api.example.com/files?page=2", "next", "http://api.example.com/files?page=5", "last")
+		}},
+		{"GetRouteURL", func() { _, _ = c.GetRouteURL("named", fiber.Map{"id": "77"}) }},
+		{"Render", func() { _ = c.Render("tpl", fiber.Map{"k": "v"}) }},
+		{"Format", func() {
+			_ = c.Format(
+				fiber.ResFmt{MediaType: "text/plain", Handler: func(c fiber.Ctx) error { return c.SendString("plain") }},
+				fiber.ResFmt{MediaType: "application/json", Handler: func(c fiber.Ctx) error { return c.JSON(fiber.Map{"a": 1}) }},
+			)
+		}},
+		{"Redirect.To", func() { _ = c.Redirect().With("k", "v", 0x41).To("/elsewhere") }},
+		{"SendFile(missing)", func() { _ = c.SendFile(dir+"/no-such-file.txt", fiber.SendFile{CacheDuration: -1}) }},
+		{"SendFile(existing)", func() { _ = c.SendFile(dir+"/a.txt", fiber.SendFile{CacheDuration: -1}) }},
+		{"SendFile(FS, short name)", func() {
+			c.Response().ResetBody()
+			_ = c.SendFile("a.txt", fiber.SendFile{CacheDuration: -1, FS: os.DirFS(dir)})
+		}},
+		{"SendFile(FS, missing)", func() {
+			c.Response().ResetBody()
+			_ = c.SendFile("nope.txt", fiber.SendFile{CacheDuration: -1, FS: os.DirFS(dir)})
+		}},
+		{"Cookie/Vary/Append/Type/Location", func() {
+			c.Response().ResetBody()
+			c.Cookie(&fiber.Cookie{Name: "sid", Value: "abc"})
+			c.Vary("Origin")
+			c.Append("X-Extra", "1", "2")
+			c.Type("json")
+			c.Location("/x")
+		}},
+		{"JSON", func() { _ = c.JSON(fiber.Map{"a": []int{1, 2}}) }},
+		{"XML", func() { _ = c.XML(struct{ A string }{"x"}) }},
+		{"SendStatus", func() { _ = c.SendStatus(204) }},
+		{"String", func() { _ = c.String() }},
+	}
+	for _, st := range steps {
+		st.f()
+		after(st.name)
+	}
 }
 
 func sortedKeys[V any](m map[string]V) []string {
@@ -1185,6 +1222,21 @@ func immCorpus(e *ev.Env) {
 		sh := genShape(c.R)
 		sh.Kind, sh.Route, sh.CEnc = "json", 0, ""
 		judgeImm(e, c, immCfg{ZeroCopyJSON: true}, sh, 1, c.R)
+	})
+	e.Corpus("unrouted-get-sendfile-in-errorhandler", func(c *ev.Case) {
+		sh := genShape(c.R)
+		sh.Kind, sh.Route, sh.Fwd, sh.SameHost, sh.Comma = "none", 1, false, false, false
+		for k := range sh.Len {
+			sh.Len[k] = 2
+		}
+		sh.Len["w2"] = 60
+		judgeImm(e, c, immCfg{}, sh, 1, c.R)
+	})
+	e.Corpus("long-path-default-config", func(c *ev.Case) {
+		sh := genShape(c.R)
+		sh.Kind, sh.Route, sh.Fwd = "none", 0, false
+		sh.Len["w2"] = 300
+		judgeImm(e, c, immCfg{}, sh, 1, c.R)
 	})
 	e.Corpus("splitting-commas-form", func(c *ev.Case) {
 		sh := genShape(c.R)
